@@ -47,9 +47,9 @@ theorem setTimeout_list {v : Variant} (hv : Fixed v) {d : Daemon} (h : Inv d) (i
 
 /-- resume: the connection processed by `resume_suspended_connections` is no longer suspended and
     its timer starts again at the current time -/
-theorem resumeOne_restarts (d : Daemon) (i : Id) (hr : (d.c i).resuming = true) :
-    ((resumeOne d i).c i).suspended = false ∧ ((resumeOne d i).c i).tmo = (d.c i).tmo ∧
-    ((d.c i).tmo ≠ 0 → ((resumeOne d i).c i).la = d.now) := by
+theorem resumeOne_restarts (v : Variant) (d : Daemon) (i : Id) (hr : (d.c i).resuming = true) :
+    ((resumeOne v d i).c i).suspended = false ∧ ((resumeOne v d i).c i).tmo = (d.c i).tmo ∧
+    ((d.c i).tmo ≠ 0 → ((resumeOne v d i).c i).la = d.now) := by
   unfold resumeOne Daemon.remSusp Daemon.insTimeout
   dsimp only
   repeat' split
